@@ -340,7 +340,8 @@ namespace occa {
   }
 
   occa::memory memory::clone() const {
-    if (!modeMemory) {
+    // Zero bytes are allocated as an uninitialized memory (see device::malloc)
+    if (!modeMemory || !byte_size()) {
       return occa::memory();
     }
 
